@@ -118,8 +118,8 @@ class ManualInterval(BaseInterval):
 
         # Filter out invalid values (inf, nan)
         values = values[np.isfinite(values)]
-        vmin = np.min(values) if self.vmin is None else self.vmin
-        vmax = np.max(values) if self.vmax is None else self.vmax
+        vmin = float(np.min(values)) if self.vmin is None else self.vmin
+        vmax = float(np.max(values)) if self.vmax is None else self.vmax
 
         return vmin, vmax
 
@@ -146,8 +146,8 @@ class CenteredInterval(BaseInterval):
 
         values = np.asarray(values).ravel()
         values = values[np.isfinite(values)]
-        vmin = np.min(values)
-        vmax = np.max(values)
+        vmin = float(np.min(values))
+        vmax = float(np.max(values))
 
         half_range = np.maximum(np.abs(vmin - self.vcenter), np.abs(vmax - self.vcenter))
 
@@ -180,7 +180,7 @@ class QuantileInterval(BaseInterval):
         values = values[np.isfinite(values)]
         vmin, vmax = np.quantile(values, (self.lower_quantile, self.upper_quantile))  # type: ignore
 
-        return vmin, vmax
+        return float(vmin), float(vmax)
 
 
 @dataclass
